@@ -12,7 +12,7 @@ def main():
     note = sys.argv[2] if len(sys.argv) > 2 else None
     det = json.load(open(os.path.join(ROOT, "work", "detect-%s.json" % seed)))
     pid, letter = seed.split("-")
-    section = {"a": "A", "b": "B", "c": "A", "d": "B", "e": "A", "f": "B"}[letter]        # round-2 seeds c, d are the sub-agent's A, B
+    section = {"a": "A", "b": "B", "c": "A", "d": "B", "e": "A", "f": "B", "g": "A", "h": "B"}[letter]        # round-2 seeds c, d are the sub-agent's A, B
     meta = {
         "seed": seed,
         "breaks_property": pid,
